@@ -607,8 +607,9 @@ func (p *parser) scanEscape(quote rune) {
 func (p *parser) scanString(offset int) (string, error) {
 	// " ' /
 	quote := rune(p.str[offset])
+	inClass := false // inside [...] of a regular expression, where / does not terminate
 
-	for p.chr != quote {
+	for inClass || p.chr != quote {
 		chr := p.chr
 		if chr == '\n' || chr == '\r' || chr == '\u2028' || chr == '\u2029' || chr < 0 {
 			goto newline
@@ -626,10 +627,9 @@ func (p *parser) scanString(offset int) (string, error) {
 			}
 		case chr == '[' && quote == '/':
 			// Allow a slash (/) in a bracket character class ([...])
-			// TODO Fix this, this is hacky...
-			quote = -1
-		case chr == ']' && quote == -1:
-			quote = '/'
+			inClass = true
+		case chr == ']' && inClass:
+			inClass = false
 		}
 	}
 
